@@ -242,7 +242,8 @@ def work_gen(task):
             except DriverTimeout:
                 ev.inconc("watchdog")
             for l in ("inherit-link", "both-links", "link-tree", "import-edge", "long-chain", "cross-unit-chain", "decl-file",
-                      "alt-link", "alt-link-same-offset", "sig8-link", "sig8-link-same-offset"):
+                      "alt-link", "alt-link-same-offset", "sig8-link", "sig8-link-same-offset", "alt-import", "alt-import-nested",
+                      "alt-import-nested-same-root-offset"):
                 if g.labels.get(l):
                     ev.label("gen:" + l, g.labels[l])
     finally:
@@ -306,6 +307,8 @@ def main(tier, seed):
                           "long chains generated": ev.labels.get("gen:long-chain", 0) > 10,
                           "cross-unit chains with decl_file": ev.labels.get("gen:cross-unit-chain", 0) > 20,
                           "links into a supplementary file, the target at the linking DIE's own offset": ev.labels.get("gen:alt-link-same-offset", 0) > 20,
+                          "imports of supplementary-file units, also from imported partial units whose root has the same offset":
+                          ev.labels.get("gen:alt-import", 0) > 30 and ev.labels.get("gen:alt-import-nested-same-root-offset", 0) > 3,
                           "links into .debug_types by signature, the type at the linking DIE's own offset": ev.labels.get("gen:sig8-link-same-offset", 0) > 10,
                           "laws checked": ev.labels.get("law:@AT", 0) > 500 and ev.labels.get("law:?TAG", 0) > 200 and ev.labels.get("law:?FORM", 0) > 200,
                           "samples": ev.labels.get("sample:cooked", 0) >= 8})
